@@ -171,6 +171,9 @@ func runReplay(a vlib.Args, res *vlib.Result) {
 		fmt.Fprintln(os.Stderr, "replay:", err)
 		os.Exit(2)
 	}
+	if replayUtil(raw, res) {
+		return
+	}
 	var file struct {
 		Property string `json:"property"`
 		Desc     string `json:"desc"`
